@@ -659,6 +659,10 @@ fn run_mismatch<T: Val, U: 'static>(case: &Case) -> Outcome {
 // catalogue of element type pairs
 // ---------------------------------------------------------------------------------------------
 
+/// over-aligned zero-size type
+#[repr(align(16))]
+struct ZstAl16;
+
 type Runner = fn(&Case) -> Outcome;
 
 struct Pair {
@@ -715,6 +719,13 @@ fn mismatches() -> Vec<Pair> {
         mismatch!("m_box__16_16", Box<TokA8>, TokB16),
         mismatch!("m_string__8_8", String, u64),
         mismatch!("m_8_8__0_1", TokAH, ()),
+        // zero-size on both sides, different alignment
+        mismatch!("m_0_1__0_8", TokAZ, [u64; 0]),
+        mismatch!("m_0_8__0_1", [u64; 0], TokBZ),
+        mismatch!("m_0_1__0_16", (), ZstAl16),
+        // same size, alignment differs, no drop glue on either side
+        mismatch!("m_16_16__16_8_plain", Al16, [u64; 2]),
+        mismatch!("m_2_2__2_1", u16, [u8; 2]),
     ]
 }
 
